@@ -70,6 +70,8 @@ def run(prop_id, modname, jobs_fn, meta, argv=None):
         print("replay: property holds on this input")
         return EXIT_OK
     tier = "thorough" if a.tier == "thorough" else "quick"
+    from . import discharge as _D
+    _D.configure(tier)
     seed = int(os.environ.get("VERIF_SEED", "0") or 0)
     t0 = time.time()
     jobs = jobs_fn(tier, seed)
@@ -90,7 +92,7 @@ def run(prop_id, modname, jobs_fn, meta, argv=None):
     # ---- aggregate -------------------------------------------------------------------------
     agg = {"paths": 0, "feas_queries": 0, "obligations": 0, "rewriter": 0, "z3_unsat": 0,
            "cvc5_unsat": 0, "unknown": 0, "queries": 0, "solver_s": 0.0, "validated": 0,
-           "reach_checked": 0, "reach_failed": 0, "cvc5_cross": 0, "cvc5_disagree": 0,
+           "reach_checked": 0, "reach_failed": 0, "cvc5_cross": 0, "cvc5_disagree": 0, "cvc5_agree": 0,
            "truncated_jobs": 0, "evaluated": 0}
     samples, cands, errors, inconclusive, per_job = [], [], [], [], []
     for r in results:
@@ -173,7 +175,8 @@ def run(prop_id, modname, jobs_fn, meta, argv=None):
         "solver_queries": agg["queries"],
         "solver_seconds": round(agg["solver_s"], 2),
         "reachability_twins": {"checked": agg["reach_checked"], "vacuous": agg["reach_failed"]},
-        "cvc5_cross_checks": {"run": agg["cvc5_cross"], "disagree": agg["cvc5_disagree"]},
+        "cvc5_cross_checks": {"run": agg["cvc5_cross"], "agree_unsat": agg["cvc5_agree"], "disagree": agg["cvc5_disagree"],
+                              "undecided_by_cvc5": agg["cvc5_cross"] - agg["cvc5_agree"] - agg["cvc5_disagree"]},
         "truncated_structures": agg["truncated_jobs"],
         "functions_encoded": meta.get("functions", []),
         "source_sha1": source_shas(meta.get("files", [])),
@@ -196,10 +199,10 @@ def run(prop_id, modname, jobs_fn, meta, argv=None):
     json.dump(ev, open(os.path.join(VERIF, "evidence", "%s.json" % prop_id), "w"), indent=1, default=str)
     # ---- report ----------------------------------------------------------------------------
     print("%s tier=%s structures=%d paths=%d obligations=%d (rewriter %d, z3 %d, cvc5 %d, "
-          "inconclusive %d, evaluated %d) validated=%d solver=%.1fs wall=%.1fs" % (
+          "inconclusive %d, evaluated %d) validated=%d cvc5-cross=%d/%d solver=%.1fs wall=%.1fs" % (
               prop_id, tier, len(jobs), agg["paths"], n_ob, agg["rewriter"], agg["z3_unsat"],
               agg["cvc5_unsat"], agg["unknown"], agg["evaluated"], agg["validated"],
-              agg["solver_s"], wall))
+              agg["cvc5_agree"], agg["cvc5_cross"], agg["solver_s"], wall))
     for fp, (kf, path, n) in known_hit.items():
         print("KNOWN-FINDING: property=%s %s [%s, %d counterexample(s) this run]" % (
             prop_id, kf["what"], kf["id"], n))
